@@ -1086,6 +1086,11 @@ def _decode_sampler(mchunks, payload, expected, problems):
         rate = 44100  # D: CHFR default
         if data_chunk is not None:
             if data_chunk["format"]:  # DECISION 9
+                # both encodings of the sample format are documented (bitmap bits 3-6 of the configuration
+                # chunk, CHFF of the waveform chunk): a writer must keep them in agreement
+                if meta_chunk is not None and (fmt, stereo) != (data_chunk["format"] & 7, bool(data_chunk["format"] & 8)):
+                    problems.append("sample %d: format bitmap says format %d stereo %s but CHFF says %d" % (
+                        index, fmt, stereo, data_chunk["format"]))
                 fmt = data_chunk["format"] & 7  # D "first 3 bits specify the format"
                 stereo = bool(data_chunk["format"] & 8)  # D "4th bit is a stereo flag"
             if data_chunk["rate"] is not None:
